@@ -1,7 +1,7 @@
 """
 Regenerates lean/PedalModel/Gen/TimeoutGen.lean from the tree under test (C14).
 
-Three facts about the "one side finalizes a timed-out execution" protocol, read from the AST:
+Four facts about the "one side finalizes a timed-out execution" protocol; three read from the AST:
   claim        pedal/sandbox/timeout.py: `timeout()` has an `if` whose test calls `.is_alive()` AND
                `.claim_finish()` before terminating the thread;  AND  pedal/sandbox/sandbox.py:
                `Sandbox._stop_mocking` has, before it stops the patches, an `if` whose test calls
@@ -10,6 +10,9 @@ Three facts about the "one side finalizes a timed-out execution" protocol, read 
   handlerPops  the `except TimeoutError` handler of `Sandbox._execute_with_timeout` pops
                `self._current_stdout` (or calls `self._stop_mocking`)
   handlerBumps ... and advances `self._next_context_id`
+and one observed on the imported module (no timing involved: the thread has been joined):
+  termTolerant `InterruptableThread.terminate()` on a thread that has already ended returns normally
+               (the pinned tree fails `assert self.is_alive()`); however the repair is written.
 The control flow of the two threads is hand-modelled (PedalModel/TimeoutMachine.lean) and tied to the
 code by running the real code under forced schedules (hooks) against the model.
 """
@@ -82,7 +85,22 @@ def facts():
         isinstance(n, ast.Call) and isinstance(n.func, ast.Attribute) and n.func.attr == "pop"
         and _is_self_attr(n.func.value, "_current_stdout") for n in ast.walk(handler))
     bumps = any(isinstance(n, ast.AugAssign) and _is_self_attr(n.target, "_next_context_id") for n in ast.walk(handler))
-    return {"claim": grader_claims, "handlerPops": pops, "handlerBumps": bumps}
+    return {"claim": grader_claims, "handlerPops": pops, "handlerBumps": bumps, "termTolerant": term_tolerant()}
+
+
+def term_tolerant():
+    import importlib
+    mod = importlib.import_module("pedal.sandbox.timeout")
+    if os.path.realpath(mod.__file__) != os.path.realpath(os.path.join(REPO, "pedal", "sandbox", "timeout.py")):
+        raise RuntimeError("pedal.sandbox.timeout imported from %s, not from the tree under test" % mod.__file__)
+    t = mod.InterruptableThread(lambda: None, (), {})
+    t.start()
+    t.join()
+    try:
+        t.terminate()
+    except Exception:
+        return False
+    return True
 
 
 def translate():
@@ -99,6 +117,8 @@ def translate():
         "def handlerPops : Bool := " + b(f["handlerPops"]),
         "/-- the `except TimeoutError` handler advances `_next_context_id` -/",
         "def handlerBumps : Bool := " + b(f["handlerBumps"]),
+        "/-- `InterruptableThread.terminate()` on a thread that has already ended returns normally -/",
+        "def termTolerant : Bool := " + b(f["termTolerant"]),
         "",
         "end Pedal.Gen.Timeout",
         "",
